@@ -38,8 +38,9 @@ def col(values):
 
 def table_arrays(tbl):
     out = {
+        # "no_time": the source has no time axis at all (tbl["times"] is then only the harness' row count)
         "time": np.array(tbl["times"], dtype="int64").astype("datetime64[s]").astype("datetime64[ns]")
-        if tbl.get("times") is not None
+        if tbl.get("times") is not None and not tbl.get("no_time")
         else None,
         "cols": OrderedDict((k, col(v)) for k, v in tbl["cols"].items()),
     }
@@ -105,6 +106,8 @@ def make_xr(tbl):
     for ax in ("z", "lat", "lon"):
         if a[ax] is not None:
             dv[nm[ax]] = (tn, a[ax].copy())
+    if a["time"] is None:
+        return xr.Dataset(OrderedDict((k, ("obs", v[1])) for k, v in dv.items()))
     if tbl.get("xr_time", "coord") == "coord":
         return xr.Dataset(dv, coords={tn: a["time"].copy()})
     # time is a plain data variable on an anonymous dimension
@@ -121,6 +124,8 @@ def write_nc(tbl):
     _NC_COUNTER["n"] += 1
     path = os.path.join(seams.scratch_dir(), f"table{_NC_COUNTER['n']}.nc")
     enc = {axis_names(tbl)["time"]: {"units": "seconds since 1970-01-01 00:00:00", "dtype": "float64", "calendar": "proleptic_gregorian"}}
+    if tbl.get("no_time"):
+        enc = {}
     ds.to_netcdf(path, engine="scipy", format="NETCDF3_64BIT", encoding=enc)
     ds.close()
     return path
@@ -151,7 +156,7 @@ def model_rows(window, times):
     """Reference window membership: starting <= t < ending, absent bound open."""
     t = np.asarray(times, dtype="int64")
     m = np.ones(t.shape, dtype=bool)
-    if window:
+    if window:  # (a source without a time axis is only ever paired with window-less contexts)
         if window.get("starting") is not None:
             m &= t >= window["starting"]
         if window.get("ending") is not None:
